@@ -7,7 +7,7 @@
 //       E:<t>:<size>            append that must FAIL (and leave no trace); clears all injected faults afterwards
 //       EB:<t>:<s1>,<s2>,..     batch append that must FAIL (and leave no trace)
 //       F:<KIND>:<0|1>          switch an injected fault (FSYNC, CREATE, RENAME) on/off (needs LD_PRELOAD=libwalrusfault.so)
-// mode suffix "+sync" selects FsyncSchedule::SyncEach (e.g. strict+sync)
+// mode suffix "+sync" selects FsyncSchedule::SyncEach (e.g. strict+sync); "+mmap" selects the mmap backend for this scenario
 //       R:<t>                   consuming read_next                         (must return log[pos], pos+=1, or None iff pos==len)
 //       P:<t>                   peek read_next(checkpoint=false)            (must return log[pos] or None; changes nothing)
 //       X:<t>:<budget>:<chk>    stateful batch_read_for_topic(budget, chk, None)
@@ -53,6 +53,9 @@ fn esc(s: &str) -> String {
 }
 
 fn run(name: &str, mode_full: &str, ops: &[&str], base: &PathBuf) -> Result<(), String> {
+    let mmap_mode = mode_full.contains("+mmap");
+    let mode_full = &mode_full.replace("+mmap", "");
+    if mmap_mode || std::env::var("WALRUS_REPLAY_MMAP").is_ok() { walrus_rust::disable_fd_backend(); } else { walrus_rust::enable_fd_backend(); }
     let mode_s = mode_full.trim_end_matches("+sync");
     if mode_full.ends_with("+sync") { unsafe { std::env::set_var("WALRUS_REPLAY_SYNC_EACH", "1"); } } else { unsafe { std::env::remove_var("WALRUS_REPLAY_SYNC_EACH"); } }
     let mode = if mode_s == "strict" { ReadConsistency::StrictlyAtOnce } else {
